@@ -64,7 +64,7 @@ _RE_COV = re.compile(
     r"^<(\w+) line \d+, col \d+ to line \d+, col \d+ of module (\w+)>: "
     r"(\d+):(\d+)", re.M)
 _RE_INV = re.compile(r"Error: Invariant (\w+) is violated")
-_RE_PROP = re.compile(r"Error: Action property (\w+) is violated|"
+_RE_PROP = re.compile(r"Error: Action property (.+?) is violated|"
                       r"Error: Temporal properties were violated")
 
 
@@ -134,8 +134,12 @@ def run(module, cfg, *, workers=16, timeout=900, simulate=None, depth=None,
             if not res.violated:
                 res.violated = "Deadlock"
         if not res.ok and not res.violated:
+            txt = "\n".join(
+                ln for ln in cp.stdout.splitlines()
+                if not ln.startswith(("Parsing file", "Semantic processing",
+                                      "Linting of", "Computed ")))
             raise TLCError("TLC failed on %s (rc=%s):\n%s\n%s" % (
-                module, cp.returncode, cp.stdout[-4000:], cp.stderr[-2000:]))
+                module, cp.returncode, txt[-3500:], cp.stderr[-1500:]))
         return res
     finally:
         if not keep:
